@@ -315,3 +315,57 @@ mod if_std {
 
 #[cfg(feature = "std")]
 pub use self::if_std::*;
+
+#[cfg(futures_intrusive_verif)]
+mod verif_hooks {
+    use super::*;
+    use crate::verif::{waker_id, NodeInfo, Snapshot};
+
+    fn node_info(node: &ListNode<WaitQueueEntry>) -> NodeInfo {
+        NodeInfo {
+            addr: node as *const _ as usize,
+            state: match node.state {
+                PollState::New => 0,
+                PollState::Waiting => 1,
+                PollState::Done => 2,
+            },
+            waker: waker_id(&node.task),
+            extra: 0,
+            links: node.verif_links(),
+        }
+    }
+
+    impl<MutexType: RawMutex> GenericManualResetEvent<MutexType> {
+        /// Verification hook: read-only snapshot of the internal state
+        pub fn verif_snapshot(&self) -> Snapshot {
+            let state = self.inner.lock();
+            let mut waiters = alloc::vec::Vec::new();
+            state
+                .waiters
+                .verif_for_each_oldest_first(1 << 16, &mut |n| {
+                    waiters.push(node_info(n))
+                });
+            let mut newest_first = alloc::vec::Vec::new();
+            state
+                .waiters
+                .verif_for_each_newest_first(1 << 16, &mut |n| {
+                    newest_first.push(node_info(n))
+                });
+            Snapshot {
+                flags: alloc::vec![("is_set", state.is_set as u64)],
+                queues: alloc::vec![
+                    ("waiters", waiters),
+                    ("waiters_rev", newest_first)
+                ],
+            }
+        }
+    }
+
+    impl<'a, MutexType: RawMutex> GenericWaitForEventFuture<'a, MutexType> {
+        /// Verification hook: the futures own wait node
+        pub fn verif_node(&self) -> NodeInfo {
+            let _guard = self.event.map(|m| m.inner.lock());
+            node_info(&self.wait_node)
+        }
+    }
+}
